@@ -241,7 +241,7 @@ def _sig_base(rng):
     path = rng.choice(PATHS)
     query = rng.choice(QUERIES)
     body = rng.choice(BODIES)
-    tol = rng.choice([30, 100, 600, 10])
+    tol = rng.choice([30, 100, 600, 10, 0, 1, 3600])
     key = rng.choice(KEYS) if rng.random() < 0.65 else rng.choice(LONG_KEYS)
     fp = rng.choice(["fp-1", "fp-2"])
     c = {"kind": "sig", "strict": rng.random() < 0.7, "tol": tol, "decryptors": ["fp-1", "fp-2"],
@@ -479,7 +479,7 @@ def gen_grp(rng):
     for _ in range(ng):
         nk = rng.choice([1, 1, 2])
         gfps = rng.sample(fps, nk)
-        groups.append({"strict": rng.random() < 0.8, "tol": rng.choice([10, 100, 600]),
+        groups.append({"strict": rng.random() < 0.8, "tol": rng.choice([0, 0, 1, 10, 100, 600, 3600]),   # SignatureConfig.Expire built in code
                        "keys": [{"fp": f, "key": rng.randrange(3)} for f in gfps],
                        "methods": rng.choice([["GET"], ["GET"], ["POST"], ["GET", "POST"], ["POST", "GET", "PUT", "DELETE"]])})
     pairs = sorted({(k["fp"], k["key"]) for g in groups for k in g["keys"]})
@@ -489,7 +489,7 @@ def gen_grp(rng):
         for gi in range(ng):
             t = rng.random()
             reqs.append({"group": gi, "fp": fp, "enckey": key, "hmackey": rng.choice(KEYS),
-                         "tsoff": rng.choice([0, 0, 0, 1, -2, 50, -50, 700]),
+                         "tsoff": rng.choice([0, 0, 0, 0, -1, -2, -2, 2, 50, -50, 700, -1800, -1800, -3700]),
                          "method": rng.choice(["POST", "POST", "GET", "PUT", "DELETE"]),
                          "query": rng.choice(["", "x=1", "a=1&b=2"]), "body": rng.choice(["", "hi", "payload-1"]),
                          "tamper": "" if t < 0.85 else rng.choice(["body", "query"])})
@@ -502,7 +502,7 @@ def gen_grp(rng):
             reqs.append({"group": gi, "fp": fp0, "enckey": key0, "hmackey": KEYS[0], "tsoff": 0, "method": m, "query": "",
                          "body": "", "tamper": "", "nosig": True})
     rng.shuffle(reqs)
-    return {"kind": "grp", "groups": groups, "reqs": reqs}
+    return {"kind": "grp", "chain": rng.random() < 0.5, "groups": groups, "reqs": reqs}
 
 
 METHODS = ["/pkg.Svc/Do", "/a.b.c.Deep/Call", "/x.Y/Check", "/x.Y/Watch", "/grpc.health.v1.Health/Check",
@@ -557,7 +557,7 @@ def gen_ejwt(rng):
         if live:
             reqs.append({"group": rng.choice(live), "tok": rng.randrange(len(tokens)), "scheme": rng.choice(["Bearer ", "bearer ", ""])})
     rng.shuffle(reqs)
-    return {"kind": "ejwt", "groups": groups, "secrets": secrets, "tokens": tokens, "reqs": reqs}
+    return {"kind": "ejwt", "chain": rng.random() < 0.5, "groups": groups, "secrets": secrets, "tokens": tokens, "reqs": reqs}
 
 
 def gen_rpc_outage(rng):
@@ -642,12 +642,39 @@ def gen_rpcn(rng):
             {"op": "call", "mode": mode(), "nomd": False, "apps": [stored[0]], "tokens": ["tok-" + stored[0]]}]   # cached before
     ops.append({"op": "up"})
     ops.append({"op": "call", "mode": mode(), "nomd": False, "apps": [stored[3]], "tokens": ["tok-" + stored[3]]})
-    return {"kind": "rpcn", "auth": rng.random() < 0.75, "strict": rng.random() < 0.5, "ops": ops}
+    return {"kind": "rpcn", "auth": rng.random() < 0.75, "strict": rng.random() < 0.5, "proxy": False, "ops": ops}
+
+
+def gen_rpc_proxy(rng):
+    """one rpc.Proxy in front of an auth-enabled backend: for several apps a correctly authenticated call, then the SAME app with a
+    wrong token, an empty token, the right token again, another app's token -- all through the same proxy"""
+    apps = ["px-%d" % i for i in range(4)]
+    ops = [{"op": "set", "app": a, "token": "tok-" + a} for a in apps]
+    for a in apps[:3]:
+        seq = [["tok-" + a], ["forged"], ["tok-" + a], ["tok-" + apps[3]], [""], ["tok-" + a]]
+        if rng.random() < 0.5:
+            seq = [["forged"]] + seq
+        for tk in seq:
+            ops.append({"op": "call", "mode": "unary", "nomd": False, "apps": [a], "tokens": tk})
+    ops.append({"op": "call", "mode": "unary", "nomd": True})
+    ops.append({"op": "call", "mode": "unary", "nomd": False, "apps": ["px-unknown"], "tokens": ["x"]})
+    return {"kind": "rpcn", "auth": True, "strict": rng.random() < 0.7, "proxy": True, "ops": ops}
 
 
 def generate(rng, tier, n):
     cases = []
     if tier != "search":
+        for strict in (True, False):
+            c = gen_rpc_proxy(rng)
+            c["strict"] = strict
+            cases.append(c)
+        for chain in (True, True):
+            c = gen_grp(rng)
+            c["chain"] = chain
+            cases.append(c)
+            c = gen_ejwt(rng)
+            c["chain"] = chain
+            cases.append(c)
         cases.append(gen_jwt_algs(rng))
         for strict in (True, False):
             c = gen_rpc_outage(rng)
@@ -741,6 +768,8 @@ def search(rng, problems):
             out.append(c)
     for _ in range(20):
         out.append(gen_ejwt(rng))
+    for _ in range(3):
+        out.append(gen_rpc_proxy(rng))
     for _ in range(3):
         out.append(gen_jwt_algs(rng))
     for strict in (True, True, False):
@@ -1045,7 +1074,7 @@ def enc_rpcn(case, obs):
         else:
             md = "(Some %s)" % cpair(clist([cN(sid(a)) for a in (op.get("apps") or [])]), clist([cN(sid(t)) for t in (op.get("tokens") or [])]))
         steps.append("(mkrs %s %s %s %s)" % (cbool(down), st, md, cZ(row["code"])))
-    return "CRpcN (mkrn %s %s %s)" % (cbool(case["auth"]), cbool(case["strict"]), clist(steps))
+    return "CRpcN (mkrn %s %s %s %s)" % (cbool(case["auth"]), cbool(case["strict"]), cbool(case.get("proxy", False)), clist(steps))
 
 
 def enc_rpci(case, obs):
@@ -1169,6 +1198,8 @@ def bucket(case, obs):
         if case["intent"]["variant"] == "routed-path" and obs["ran"]:
             out.append("note:routed-path-differs-from-signed-path-accepted")
     elif k == "ejwt":
+        if case.get("chain"):
+            out.append("ejwt:custom-chain")
         for gi, g in enumerate(case["groups"]):
             out.append("ejwt:%s:secret-len=%s:prev-len=%s%s" % (g["opt"], "<8" if len(g["secret"]) < 8 else ">=8",
                        ("0" if not g["prev"] else ("1-7" if len(g["prev"]) < 8 else ">=8")) if g["opt"] == "transition" else "-",
@@ -1183,7 +1214,11 @@ def bucket(case, obs):
             else:
                 out.append("ejwt:other:%d" % r["status"])
     elif k == "grp":
-        out.append("grp:groups=%d" % len(case["groups"]))
+        out.append("grp:groups=%d%s" % (len(case["groups"]), ":custom-chain" if case.get("chain") else ""))
+        for rq, r in zip(case["reqs"], obs["rows"]):
+            g = case["groups"][rq["group"]]
+            if g["tol"] in (0, 1, 3600) and not rq.get("nosig") and rq["tamper"] == "" and g["strict"] and any(kk["fp"] == rq["fp"] and kk["key"] == rq["enckey"] for kk in g["keys"]) and rq["method"] in (g.get("methods") or []):
+                out.append("grp:expire=%d:age=%d:%d" % (g["tol"], -rq["tsoff"], r["status"]))
         for rq, r in zip(case["reqs"], obs["rows"]):
             g = case["groups"][rq["group"]]
             conf = any(kk["fp"] == rq["fp"] and kk["key"] == rq["enckey"] for kk in g["keys"])
@@ -1198,7 +1233,16 @@ def bucket(case, obs):
                 out.append("grp:unsigned:%s:%s:%s:%d%s" % (rq["method"], "registered" if reg else "other-method", "strict" if g["strict"] else "lax",
                                                           r["status"], ":RAN" if r["ran"] else ""))
     elif k == "rpcn":
-        out.append("rpcn:auth=%s:strict=%s" % (case["auth"], case["strict"]))
+        out.append("rpcn:auth=%s:strict=%s%s" % (case["auth"], case["strict"], ":via-proxy" if case.get("proxy") else ""))
+        if case.get("proxy"):
+            seen_ok = set()
+            for (down, store, op), r in zip(rpc_steps(case), obs["rows"]):
+                app = (op.get("apps") or [""])[0]
+                tok = (op.get("tokens") or [""])[0]
+                if r["code"] == 0:
+                    seen_ok.add(app)
+                elif app in seen_ok and store.get(app) != tok:
+                    out.append("rpcn:proxy:wrong-token-after-good-call:code=%d" % r["code"])
         for (down, store, op), r in zip(rpc_steps(case), obs["rows"]):
             app = (op.get("apps") or [""])[0]
             tok = (op.get("tokens") or [""])[0]
